@@ -184,6 +184,23 @@ func (r *Report) Finish(verifDir string, seed int64) int {
 	for _, o := range knownHits {
 		samples = append(samples, o)
 	}
+	// every obligation (key @ position) and the per-file / per-rule tallies: lets a reader see
+	// which anchored files the rules actually reached
+	obKeys := []string{}
+	perFile := map[string]int{}
+	perRuleAll := map[string]int{}
+	for _, o := range obs {
+		obKeys = append(obKeys, o.Key+" @ "+o.Pos)
+		f := o.Pos
+		if i := strings.LastIndex(f, ":"); i > 0 {
+			f = f[:i]
+		}
+		if f != "" {
+			perFile[f]++
+		}
+		perRuleAll[o.Rule]++
+	}
+	sort.Strings(obKeys)
 	ruleList := []string{}
 	for k := range rules {
 		ruleList = append(ruleList, k)
@@ -209,6 +226,9 @@ func (r *Report) Finish(verifDir string, seed int64) int {
 		"rule":                "one obligation per (rule, function, construct) site enumerated from the SSA/type-checked program of /repo; distinct_nontrivial counts distinct rule ids that matched at least one site",
 		"rules":               ruleList,
 		"samples":             samples,
+		"obligation_keys":     obKeys,
+		"obligations_by_file": perFile,
+		"obligations_by_rule": perRuleAll,
 		"exhaustive":          true,
 		"packages_analysed":   npk,
 		"functions_analysed":  nfuncs,
